@@ -36,6 +36,12 @@ def scenarios(ck, thorough):
     S.append("svc svc | at:1:60, cancel:1, restart, at:2:250, wait:400")
     S.append("svc svc | at:1:80, at:2:40, wait:10, cancel:2, restart, at:3:200, at:4:30, wait:300, restart, at:5:20, wait:60")
     S.append("svc svc | per:1:30, at:2:500, wait:70, restart, at:3:120, per:4:40, wait:200, cancel:4, wait:50")
+    # the pool's stop() while one of its services is being drained by another thread (a handler still running, one still pending)
+    S.append("svc pool | at:1:30:g, at:2:150, waitstart:1, thread:drain:3000, thread:wait:120+release:1, wait:20, poolstop, wait:300")
+    S.append("svc pool | at:1:20, per:2:25, wait:60, poolstop, late:3:5, wait:60")
+    # statistics switched off: the results of cancel() / schedule must be the same
+    S.append("svc nostat | at:1:80, at:2:30, wait:5, cancel:1, wait:120, cancel:2")
+    S.append("svc nostat | at:1:40:g, per:2:20, waitstart:1, cancel:2, cancel:1, release:1, wait:60, stop, late:3:5")
     # plain life cycle
     S.append("svc svc | at:1:20, per:2:15, wait:100, cancel:2, cancel:1, wait:50")
     S.append("svc pool | at:1:10, at:2:30, cancel:2, wait:60, stop, late:3:5, wait:30")
@@ -60,7 +66,7 @@ def scenarios(ck, thorough):
             else:
                 ops.append("wait:%d" % rng.choice([1, 6, 15, 30]))
         tail = rng.choice([["wait:60"], ["stop", "late:9:5", "wait:20"], ["drain:1500", "late:9:5", "wait:20"], ["wait:30", "stop"]])
-        S.append("svc %s | %s" % (rng.choice(["svc", "pool"]), ", ".join(ops + tail)))
+        S.append("svc %s | %s" % (rng.choice(["svc", "pool", "nostat"]), ", ".join(ops + tail)))
     return S
 
 
